@@ -399,3 +399,51 @@ class C07(ZooProp):
 from . import c20 as _c20  # noqa: E402
 
 REG["C20"] = _c20.C20()
+
+
+TSAN = ["-O1", "-g1", "-fsanitize=thread", "-fno-omit-frame-pointer"]
+TSAN_ENV = {"TSAN_OPTIONS": "halt_on_error=1:exitcode=66:report_signal_unsafe=0"}
+ENGINES.append({"name": "E6", "path": "harness/tsan_C16.cpp", "serves_properties": ["C16"],
+                "kind_free_text": "generated multi-threaded lookup / disjoint-write workloads under ThreadSanitizer with a sequential run as value oracle and a racy positive control"})
+
+
+@prop("C16")
+class C16(E1Prop):
+    pid = "C16"
+    engine = "E6"
+    technique = "generated thread workloads (rapidcheck) under ThreadSanitizer; per-thread result digests against a sequential execution; positive control"
+    rule = ("cases = (storage order in {row-major 2-D/3-D, Morton BMI2 2-D, Morton portable 3-D, Hilbert} x {no interpolator, nearest, linear} x "
+            "optional affine layer, extents 2..9, T in 2..16 threads, one shared view or per-thread views, per-thread coordinate lists clustered so "
+            "that threads touch the same storage elements; writer workloads on reference-returning stacks with the lattice points dealt round-robin "
+            "to the threads = disjoint but adjacent elements). Oracle: ThreadSanitizer reports nothing (halt_on_error) and every thread's digest "
+            "equals the digest of a sequential execution of the same list. A deliberately racy control workload must be reported by TSan first, "
+            "otherwise the run is inconclusive. non-trivial = two threads touch the same (readers) or adjacent (writers) storage elements; distinct "
+            "by workload hash")
+    min_eval = 500
+    assumptions = ("schedules are not enumerated: the claim rests on ThreadSanitizer's happens-before analysis of the accesses the generated workloads perform",)
+    level_text = ("Generated concurrent workloads under ThreadSanitizer with a sequential value oracle and a positive control; would catch a mutable / static "
+                  "cache inside a lookup or an index function; does not enumerate interleavings.")
+    level_note = "trusted: ThreadSanitizer (g++ 12 runtime) as race oracle; rapidcheck; std::thread"
+
+    def harnesses(self, tier):
+        fl = TSAN + (["-mbmi2"] if zoo.cpu_has_bmi2() else [])
+        return [H("tsan_C16", "tsan_C16.cpp", shards=16, flags=fl, link_flags=["-fsanitize=thread"], env=TSAN_ENV)]
+
+    def check(self, tier, seed):
+        hs = self.harnesses(tier)
+        try:
+            e1.build_all(hs)
+        except core.CompileFailure:
+            return e1.check(self.pid, tier, seed, hs, self.level, self.rule, self.assumptions, min_eval=self.min_eval)
+        rc, log, _ = core.run([hs[0].bin], env=dict(TSAN_ENV, VERIF_TSAN_CONTROL="1"), timeout=300)
+        if "ThreadSanitizer: data race" not in log or rc == 0:
+            raise core.InfraError("positive control: ThreadSanitizer did not report the deliberately racy workload; the environment cannot carry the claim\n" + log[-1500:])
+        return e1.check(self.pid, tier, seed, hs, self.level, self.rule, self.assumptions, min_eval=self.min_eval,
+                        extra_cov={"positive_control": "two writers on one coordinate: reported by ThreadSanitizer"})
+
+
+from . import c15 as _c15  # noqa: E402
+
+ENGINES.append({"name": "E7", "path": "vlib/c15.py", "serves_properties": ["C15"],
+                "kind_free_text": "build-configuration differential: the same generated programs under assertions+ASan+UBSan, -O2 -DNDEBUG, +UBSan and valgrind; digests compared"})
+REG["C15"] = _c15.C15()
